@@ -167,6 +167,16 @@ _ARITH = {ast.Add: 'add', ast.Sub: 'sub', ast.Mult: 'mul', ast.Div: 'div', ast.F
 _CMP = {ast.Lt: 'lt', ast.LtE: 'le', ast.Gt: 'gt', ast.GtE: 'ge', ast.Eq: 'eq', ast.NotEq: 'ne'}
 
 
+def _bool_sorted(term):
+    sort = getattr(term, 'sort', None)
+    if isinstance(sort, str):            # FP back end: T(sort tag, text)
+        return sort == 'B'
+    try:
+        return sort().name() == 'Bool'   # z3 ExprRef
+    except Exception:  # noqa: BLE001
+        return True                      # unknown term kind: stay conservative
+
+
 class Sym:
     def __init__(self, fn, be, stubs=None, fields=None, inline=None, unroll=8, prune=False):
         self.fdef = fn if isinstance(fn, ast.FunctionDef) else source_def(fn)
@@ -431,8 +441,10 @@ class Sym:
                 if isinstance(op, (ast.Is, ast.IsNot)):
                     if not (right is None or isinstance(right, bool)):
                         raise Unsupported('`is` with non-singleton')
-                    if right is None and getattr(self.be, 'is_term', lambda _x: False)(left):
-                        raise Unsupported('`is None` on a symbolic term')
+                    if right is None and getattr(self.be, 'is_term', lambda _x: False)(left) and _bool_sorted(left):
+                        # a Bool term stands for "matched / found or None": `is None` would silently read as False.
+                        # (a numeric term is a number, never None: `is None` is False, as python would say)
+                        raise Unsupported('`is None` on a symbolic Bool term')
                     r = (left is right) if isinstance(op, ast.Is) else (left is not right)
                 elif isinstance(op, (ast.In, ast.NotIn)):
                     r = self.contains(left, right, st)
